@@ -100,6 +100,15 @@ def oracle(case, rec):
         if case.get("in_place", True):
             for raw in used:
                 _use_in_place(raw)
+            if pt is case["points"][0]:
+                # ... and asks again at the very same point (a memo of the last evaluation must not hand the edited array back)
+                used.clear()
+                ev("C03/jacobian/same-point-again", conv_fn(model, "jacobian", conv), (n_s, n_s), "jacobian(x,t) asked again",
+                   d["J"], 1e-8, terms=d["JM"], matrix=True)
+                ev("C03/grad/same-point-again", conv_fn(model, "grad", conv), (n_s, n_p), "grad(x,t) asked again", d["G"], 1e-8,
+                   terms=d["GM"], matrix=n_p > 0)
+                ev("C03/diff_jacobian/same-point-again", conv_fn(model, "diff_jacobian", conv), (n_s * n_s, n_s), "diff_jacobian(x,t) asked again",
+                   d["Hxx"].reshape(n_s * n_s, n_s), 1e-8, terms=d["HxxM"].reshape(n_s * n_s, n_s), matrix=True)
     kinds = {e.get("rate_kind") for e in m["events"]}
     par_times_state = bool(np.abs(d["Hpx"]).sum() > 0)
     if (n_s != n_p or n_s >= 3) and (kinds & NONLIN or np.abs(d["Hxx"]).sum() > 0) and par_times_state:
